@@ -57,48 +57,52 @@ theorem bscSeal_guarded (c : Bsc) (sig : SigRes) (h1 : c.chainId ≤ maxI64) (h2
   cases sig <;> simp [*] <;> split <;> rfl
 
 /-- bsc: `ClientState.Validate` guards `Initialize` (`% Epoch`, negative chain id in rlp, `Extra[32:len-65]`). -/
-theorem bsc_init_guarded (c : Bsc) (sig : SigRes) (h : bscValidate c = .ok ()) :
-    (bscInit c sig).isPanic = false := by
+theorem bsc_init_guarded (c : Bsc) (cons : CT) (sig : SigRes) (h : bscValidate c = .ok ()) :
+    (bscInit c cons sig).isPanic = false := by
   obtain ⟨he, hc, hx⟩ := bscValidate_facts c h
   unfold bscInit
-  simp only [he, ↓reduceIte]
   split
   · rfl
-  · exact bscSeal_guarded c sig hc hx
+  · split
+    · rfl
+    · exact bscSeal_guarded c sig hc hx
 
 /-- bsc: `ClientState.Validate` guards `UpgradeState`. -/
-theorem bsc_upgrade_guarded (c : Bsc) (sig : SigRes) (p s : Bool) (h : bscValidate c = .ok ()) :
-    (bscUpgrade c sig p s).isPanic = false := by
+theorem bsc_upgrade_guarded (c : Bsc) (cons : CT) (sig : SigRes) (p s : Bool) (h : bscValidate c = .ok ()) :
+    (bscUpgrade c cons sig p s).isPanic = false := by
   obtain ⟨he, hc, hx⟩ := bscValidate_facts c h
   unfold bscUpgrade
-  simp only [he, ↓reduceIte]
-  repeat' (split <;> try rfl)
-  exact bscSeal_guarded c sig hc hx
+  split
+  · rfl
+  · repeat' (split <;> try rfl)
+    exact bscSeal_guarded c sig hc hx
 
 /-- eth: `Header.ValidateBasic` guards `Initialize` / `UpgradeState` (`BytesToBloom`). -/
-theorem eth_init_guarded (c : Eth) (m : Bool) (h : ethValidate c = .ok ()) :
-    (ethInit c m).isPanic = false := by
+theorem eth_init_guarded (c : Eth) (cons : CT) (m : Bool) (h : ethValidate c = .ok ()) :
+    (ethInit c cons m).isPanic = false := by
   have hb : ¬ c.bloomLen > 256 := by
     intro hb; unfold ethValidate at h; simp [hb] at h
   unfold ethInit
   split
   · rfl
-  · simp
+  · split
+    · rfl
+    · simp
 
 theorem cs_init_guarded (c : CS) (cons : CT) (e : Env) (h : csValidate c = .ok ()) :
     (csInit c cons e).isPanic = false := by
   cases c with
   | tm t => simp only [csInit, tmInit]; split <;> rfl
-  | bsc b => exact bsc_init_guarded b e.sig h
-  | eth x => exact eth_init_guarded x e.marshalErr h
+  | bsc b => exact bsc_init_guarded b cons e.sig h
+  | eth x => exact eth_init_guarded x cons e.marshalErr h
   | tss t => rfl
 
-theorem cs_upgrade_guarded (c : CS) (e : Env) (h : csValidate c = .ok ()) :
-    (csUpgrade c e).isPanic = false := by
+theorem cs_upgrade_guarded (c : CS) (cons : CT) (e : Env) (h : csValidate c = .ok ()) :
+    (csUpgrade c cons e).isPanic = false := by
   cases c with
-  | tm t => rfl
-  | bsc b => exact bsc_upgrade_guarded b e.sig e.pruneErr e.signerErr h
-  | eth x => exact eth_init_guarded x e.marshalErr h
+  | tm t => simp only [csUpgrade, tmInit]; split <;> rfl
+  | bsc b => exact bsc_upgrade_guarded b cons e.sig e.pruneErr e.signerErr h
+  | eth x => exact eth_init_guarded x cons e.marshalErr h
   | tss t => rfl
 
 /-! ### xibc client proposals -/
@@ -135,12 +139,12 @@ theorem upgrade_no_panic (e : Env) (s : XSt) (p : ClientProp) (h : clientValidat
   unfold handleUpgrade
   simp only [hc, unpack, ok_bind]
   apply bind_noPanic _ _ (unpack_noPanic _)
-  intro _ _
+  intro cons _
   split
   · rfl
   · split
     · rfl
-    · apply bind_noPanic _ _ (cs_upgrade_guarded c e hv)
+    · apply bind_noPanic _ _ (cs_upgrade_guarded c cons e hv)
       intro _ _; rfl
 
 /-- every stored client state is accepted by its `Validate`. -/
@@ -164,34 +168,34 @@ theorem set_valid (s : XSt) (hs : StoreValid s) (chain : String) (c : CS) (hc : 
   · exact hc
   · exact hs x hx
 
-/-- ToggleClientProposal: accepted by `ValidateBasic` ⇒ executed without panic, in every state whose stored
-client states are valid (the handler runs `Initialize` of the STORED client state). -/
-theorem toggle_no_panic (e : Env) (s : XSt) (hs : StoreValid s) (p : ClientProp)
+/-- ToggleClientProposal: accepted by `ValidateBasic` ⇒ executed without panic, in EVERY state (since fix e081e86 the
+handler runs `Initialize` of the proposal's own, validated, client state; the `StoreValid` hypothesis of the earlier
+version is gone). -/
+theorem toggle_no_panic (e : Env) (s : XSt) (p : ClientProp)
     (h : clientValidateBasic p = .ok ()) : (handleToggle e s p).isPanic = false := by
-  obtain ⟨c, hc, _⟩ := clientValidateBasic_val p h
+  obtain ⟨c, hc, hv⟩ := clientValidateBasic_val p h
   unfold handleToggle
   cases ho : s.get p.chain with
   | none => rfl
   | some old =>
-    have hov := get_valid s hs _ _ ho
     simp only [hc, unpack, ok_bind]
     apply bind_noPanic _ _ (unpack_noPanic _)
     intro cons _
     split
     · rfl
-    · apply bind_noPanic _ _ (cs_init_guarded old cons e hov)
+    · apply bind_noPanic _ _ (cs_init_guarded c cons e hv)
       intro _ _; rfl
 
 /-- RegisterRelayerProposal. -/
 theorem relayer_no_panic (s : XSt) (p : RelayerProp) : (handleRelayer s p).isPanic = false := rfl
 
-/-- All four xibc proposal types at once. -/
-theorem xibc_proposal_no_panic (e : Env) (s : XSt) (hs : StoreValid s) (p : XProp)
+/-- All four xibc proposal types at once, in every state. -/
+theorem xibc_proposal_no_panic (e : Env) (s : XSt) (p : XProp)
     (h : xValidateBasic p = .ok ()) : (xHandle e s p).isPanic = false := by
   cases p with
   | create p => exact create_no_panic e s p h
   | upgrade p => exact upgrade_no_panic e s p h
-  | toggle p => exact toggle_no_panic e s hs p h
+  | toggle p => exact toggle_no_panic e s p h
   | relayer p => exact relayer_no_panic s p
 
 /-- Validated proposals keep the store valid. -/
@@ -357,7 +361,7 @@ def xRun : XSt → List (Env × XProp) → Out XSt
     | .err _ => xRun s rest
     | .panic m => .panic m
 
-theorem xRun_no_panic (s : XSt) (hs : StoreValid s) (ops : List (Env × XProp))
+theorem xRun_no_panic (s : XSt) (ops : List (Env × XProp))
     (hv : ∀ o ∈ ops, xValidateBasic o.2 = .ok ()) : (xRun s ops).isPanic = false := by
   induction ops generalizing s with
   | nil => rfl
@@ -365,11 +369,11 @@ theorem xRun_no_panic (s : XSt) (hs : StoreValid s) (ops : List (Env × XProp))
     obtain ⟨e, p⟩ := o
     have hp := hv (e, p) (List.mem_cons_self)
     have hrest : ∀ o ∈ rest, xValidateBasic o.2 = .ok () := fun o ho => hv o (List.mem_cons_of_mem _ ho)
-    have hnp := xibc_proposal_no_panic e s hs p hp
+    have hnp := xibc_proposal_no_panic e s p hp
     unfold xRun
     cases hr : xHandle e s p with
-    | ok s' => exact ih s' (xHandle_preserves_valid e s s' hs p hp hr) hrest
-    | err m => exact ih s hs hrest
+    | ok s' => exact ih s' hrest
+    | err m => exact ih s hrest
     | panic m => rw [hr] at hnp; simp at hnp
 
 /-- From any validated genesis, any sequence of validated xibc proposals (any external results)
@@ -380,7 +384,7 @@ theorem xibc_chain_never_halts (g : XGen) (hg : xValidateGenesis g = .ok ()) (op
   obtain ⟨h1, h2⟩ := xgenesis_no_panic g hg
   apply bind_noPanic _ _ h1
   intro s hs
-  exact xRun_no_panic s (h2 s hs) ops hv
+  exact xRun_no_panic s ops hv
 
 /-! ### aggregate -/
 
@@ -697,13 +701,13 @@ theorem beginBlocker_no_panic (s : Vesting.State) (hv : Vesting.Valid s.reward) 
 /-- Without the `Epoch ≠ 0` guard (`Validate` = `Header.ValidateBasic` as in the unfixed tree) an accepted
 client state panics in `Initialize`. -/
 theorem unfixed_bsc_epoch_witness :
-    ∃ c sig, bscHeaderValidate c = .ok () ∧ (bscInit c sig).isPanic = true :=
+    ∃ c sig, bscHeaderValidate c = .ok () ∧ (bscInit c .bsc sig).isPanic = true :=
   ⟨{ epoch := 0, chainId := 56, height := 0, extraLen := 97, mixZero := true, uncleOk := true,
      bloomLen := 0, nonceLen := 0, diffZero := true }, .fail, by decide, by decide⟩
 
 /-- Without the `ChainId ≤ MaxInt64` guard an accepted client state panics in `encodeSigHeader`. -/
 theorem unfixed_bsc_chainid_witness :
-    ∃ c sig, bscHeaderValidate c = .ok () ∧ c.epoch ≠ 0 ∧ (bscInit c sig).isPanic = true :=
+    ∃ c sig, bscHeaderValidate c = .ok () ∧ c.epoch ≠ 0 ∧ (bscInit c .bsc sig).isPanic = true :=
   ⟨{ epoch := 200, chainId := 9223372036854775808, height := 0, extraLen := 97, mixZero := true, uncleOk := true,
      bloomLen := 0, nonceLen := 0, diffZero := true }, .fail, by decide, by decide, by decide⟩
 
